@@ -233,6 +233,11 @@ namespace c14
                     blk[i].ptr()->~Vec();
         }
         int nops() override { return (int)ops.size(); }
+        bool recreates(int o) const // destroys the object and constructs a new one in its block
+        {
+            int k = ops[o].kind;
+            return (k >= K_REBUILD_DEFAULT && k <= K_CTOR_IL) || k == K_CTOR_RANGE_MOVE_ITER || k == K_CTOR_RANGE_INPUT_ITER || k == K_CTOR_IL_NAMED;
+        }
         string opname(int o) override
         {
             if (tab->names[o].empty())
@@ -906,6 +911,11 @@ namespace c14
                     blk[i].ptr()->~Str();
         }
         int nops() override { return (int)ops.size(); }
+        bool recreates(int o) const
+        {
+            int k = ops[o].kind;
+            return k == S_REBUILD_DEFAULT || k == S_COPY_CTOR || k == S_CTOR_CSTR || k == S_CTOR_PTR_LEN;
+        }
         string opname(int o) override
         {
             if (tab->names[o].empty())
